@@ -39,12 +39,15 @@ LOCAL_TABLE = {
 
 
 def results_of(f, tr):
+    """the ExpressionResult values built by f — also inside its closures (`self.x.check(ctx).map(|r| ExpressionResult { .. })`)"""
     out = []
-    for b in sorted(f.body.reachable()):
-        for st in f.body.blocks[b]["stmts"]:
-            if st["k"] == "assign" and st["rv"]["k"] == "aggregate" and st["rv"].get("adt") == "tsg::checker::ExpressionResult":
-                d = dict(zip(st["rv"]["fields"], st["rv"]["ops"]))
-                out.append((b, st, {k: tr.operand(v) for k, v in d.items()}))
+    prog = getattr(f, "_prog", None)
+    for g, gtr in [(f, tr)] + ([(c, Tracer(c.body)) for c in prog.closures_of(f) if c.body is not None] if prog is not None else []):
+        for b in sorted(g.body.reachable()):
+            for st in g.body.blocks[b]["stmts"]:
+                if st["k"] == "assign" and st["rv"]["k"] == "aggregate" and st["rv"].get("adt") == "tsg::checker::ExpressionResult":
+                    d = dict(zip(st["rv"]["fields"], st["rv"]["ops"]))
+                    out.append((b, st, {k: gtr.operand(v) for k, v in d.items()}))
     return out
 
 
